@@ -45,6 +45,10 @@ Streams
   cfgseq      exact   sequences of batch_size / val_ratio / val_mode assignments (None, 0, -0.0, 0.4, 0.5, 2.5, 3.5, True, "3", [3], …) on one
                       object vs the model session after every call; then a run whose schedule must be that of the STORED settings
   signature   exact   names and defaults of the property's parameters of SimpleBatcher / reconstruct / subdivide_batches / generate_batches
+  big / twins / rerun  growth round 6, see props/c09_g6.py: fixed blocks of sizes around 100/127/255/1000/32768/65537/2**24 with batch sizes that divide the training set
+                      exactly / leave a remainder of one / equal / exceed it, grid split on both sides of 0.5 for n <= 110; several batchers / objects alive at once;
+                      the same object reconstructed three times with reset=True and unchanged settings; every call of the aborted stream also vs the closed-form
+                      specification `specCall` (Model/BatcherSpec.lean); numeric stream: remainder-one batch sizes, recorded loss = sum / batches yielded for every b
 The batcher stream draws seeds from {0, 1, 2**32+5, random}, the seed as int or np.random.Generator, batch sizes None / 0 / NEGATIVE (model
 `iterPy`/`lenPy`/`valLenPy`), int val_ratio, and in 12 % of the cases abandons an epoch after 1–3 batches before the recorded epochs.
 Seed 0 (falsy) is generated in every stream, in every form.  The history stream lets continuations use another batch size than the reset
@@ -57,23 +61,26 @@ histories) is evaluated on the real code with plain Python/NumPy oracles that do
 import math
 
 LEVEL = "proof"
+EXTRA_PROPS = ["QuantemModel.Props.C09Ext"]   # growth 6: whole calls / histories (aborted epochs included) = closed-form specification
 MANIFEST_ENTRY = {
     "category": "proof",
-    "text": "Lean 4 theorems over an executable model of SimpleBatcher / subdivide_batches / the batch-fraction scaling of error_estimate (the RNG's permutations are inputs, so all shuffles are covered): train/val split is a partition for every n, n_val, grid step, mode and permutation; every epoch yields each training index exactly once for every batch size >= 1; number of batches yielded = ceil(|train|/b) = __len__; i-th batch = order[i*b:(i+1)*b]; validation pass likewise; subdivide_batches sizes sum to n, differ by <= 1, respect max_batch, generate_batches ranges tile [start,start+n); over R the mean of batch losses (and, over any field/vector space, of any additive per-pattern quantity such as gradients) equals the full-batch value when b | n, with a counterexample for b not dividing n; user supplied train/val lists that are a partition satisfy every schedule clause (only one list given raises); a state-machine model of reconstruct/reset_recon/_reset_rng (generator = seed + call position with an arbitrary draw oracle, arbitrary numerical step function): every recorded epoch loss is the sum over the yielded batches divided by their number for every b >= 1 (also non-dividing), validation losses are recorded once per iteration iff the validation set is non-empty, and reconstruct(reset=True) after ANY history of calls on a seeded object returns exactly the state, loss history and schedule of the fresh object (same_seed_same_run, reset_run_independent_of_history); every entry point of a reset is the same operation (reset_routes_agree: reconstruct(reset=True) = reset_recon(); reconstruct(reset=False), also after any history); a session model of the validating setters (batch_size, val_ratio, val_mode, rng): a rejected configuration call stores nothing and the next run is the run the object would have made without it (rejected_call_is_noop, run_after_rejected_call). Growth round 5: SimpleBatcher with Python integers (batch_size None / 0 / negative, shuffle flag, rng setter): len = number yielded whenever both are reported, for EVERY integer batch size (len_eq_yielded_every_int_batch_size), batch_size None or >= n is one batch holding the whole training set (whole_set_batch); exactly-once at the level of whole reconstruct calls for every object state and configuration (reconstruct_epochs_visit_once); a model of reconstruct calls that do NOT return (exception from a callee in training batch j / validation batch k of iteration i / after the record; ZeroDivisionError on an empty training set): an interrupted epoch leaves nothing in the loss histories (interrupted_call_keeps_completed_epochs_only), reconstruct(reset=True) after ANY history including calls that raised reproduces the fresh object (reset_run_after_interrupted_calls), a run without reset after interrupted calls records honest means (run_after_interrupted_calls_records_means), the fault model refines the plain one (reconstructF_refines_reconstruct); every accepted form of seed — 0 included — is replayed by _reset_rng, idempotently, and equals the state after construction for int / torch / unused NumPy generators (reset_replays_every_seed_form). Tied to the code on every run by exact enumeration of the real SimpleBatcher/subdivide_batches, by per-batch losses/gradients recorded inside the real Ptychography.reconstruct loop on tiny problems, by interrupted-call histories with injected exceptions and by the generator state after every call.",
-    "note": "Proved: partition, exactly-once (also per whole reconstruct call), counts (every integer batch size), contiguity, loss/gradient scaling algebra, reset/interrupted-call/seed-form state machine. Measured only (real runs, tiny problems, autograd=True, CPU float32): equality of mean per-batch loss/gradients with the full batch for every divisor batch size and all five loss types, and bitwise identical loss histories for equal seeds / after reset=True. Trusted: NumPy Generator determinism (twin generator reproduces the drawn permutations), torch autograd. The analytic-gradient path (autograd=False) normalises each batch by its own probe overlap and is only measured, not judged.",
-    "technique": "Lean 4 proof (induction over batches, permutation/partition lemmas, field algebra) + model-vs-implementation correspondence",
+    "text": "Lean 4 theorems over an executable model of SimpleBatcher / subdivide_batches / the batch-fraction scaling of error_estimate (the RNG's permutations are inputs, so all shuffles are covered): train/val split is a partition for every n, n_val, grid step, mode and permutation; every epoch yields each training index exactly once for every batch size >= 1; number of batches yielded = ceil(|train|/b) = __len__; i-th batch = order[i*b:(i+1)*b]; validation pass likewise; subdivide_batches sizes sum to n, differ by <= 1, respect max_batch, generate_batches ranges tile [start,start+n); over R the mean of batch losses (and, over any field/vector space, of any additive per-pattern quantity such as gradients) equals the full-batch value when b | n, with a counterexample for b not dividing n; user supplied train/val lists that are a partition satisfy every schedule clause (only one list given raises); a state-machine model of reconstruct/reset_recon/_reset_rng (generator = seed + call position with an arbitrary draw oracle, arbitrary numerical step function): every recorded epoch loss is the sum over the yielded batches divided by their number for every b >= 1 (also non-dividing), validation losses are recorded once per iteration iff the validation set is non-empty, and reconstruct(reset=True) after ANY history of calls on a seeded object returns exactly the state, loss history and schedule of the fresh object (same_seed_same_run, reset_run_independent_of_history); every entry point of a reset is the same operation (reset_routes_agree: reconstruct(reset=True) = reset_recon(); reconstruct(reset=False), also after any history); a session model of the validating setters (batch_size, val_ratio, val_mode, rng): a rejected configuration call stores nothing and the next run is the run the object would have made without it (rejected_call_is_noop, run_after_rejected_call). Growth round 5: SimpleBatcher with Python integers (batch_size None / 0 / negative, shuffle flag, rng setter): len = number yielded whenever both are reported, for EVERY integer batch size (len_eq_yielded_every_int_batch_size), batch_size None or >= n is one batch holding the whole training set (whole_set_batch); exactly-once at the level of whole reconstruct calls for every object state and configuration (reconstruct_epochs_visit_once); a model of reconstruct calls that do NOT return (exception from a callee in training batch j / validation batch k of iteration i / after the record; ZeroDivisionError on an empty training set): an interrupted epoch leaves nothing in the loss histories (interrupted_call_keeps_completed_epochs_only), reconstruct(reset=True) after ANY history including calls that raised reproduces the fresh object (reset_run_after_interrupted_calls), a run without reset after interrupted calls records honest means (run_after_interrupted_calls_records_means), the fault model refines the plain one (reconstructF_refines_reconstruct); every accepted form of seed — 0 included — is replayed by _reset_rng, idempotently, and equals the state after construction for int / torch / unused NumPy generators (reset_replays_every_seed_form). Growth round 6 (Props/C09Ext.lean, Model/BatcherSpec.lean): a closed-form specification of a whole reconstruct call (iteration i = the slices of the i-th draw after the batcher was built; an interrupted call = the completed epochs plus the first j+1 batches of the aborted one; generator advanced by the number of started epochs; number of recorded losses) — the loop model with or without fault IS that specification for every state/configuration/fault (reconstruct_call_refines_spec), and so is every history of calls, raising ones included (history_refines_spec); every epoch of every call of every history visits each training pattern exactly once, an aborted epoch at most once, no validation pattern ever (every_epoch_of_every_history_visits_once); with identical per-pattern errors the recorded epoch loss equals the full-batch loss for EVERY batch size >= 1 (epochLoss_identical_patterns_every_batch_size). Tied to the code on every run by exact enumeration of the real SimpleBatcher/subdivide_batches, by per-batch losses/gradients recorded inside the real Ptychography.reconstruct loop on tiny problems, by interrupted-call histories with injected exceptions and by the generator state after every call.",
+    "note": "Proved: partition, exactly-once (also per whole reconstruct call and per history incl. aborted epochs), counts (every integer batch size), contiguity, loss/gradient scaling algebra, reset/interrupted-call/seed-form state machine, loop model = closed-form call specification. Measured only (real runs, tiny problems, autograd=True, CPU float32): equality of mean per-batch loss/gradients with the full batch for every divisor batch size and all five loss types, and bitwise identical loss histories for equal seeds / after reset=True. Trusted: NumPy Generator determinism (twin generator reproduces the drawn permutations), torch autograd. The analytic-gradient path (autograd=False) normalises each batch by its own probe overlap and is only measured, not judged.",
+    "technique": "Lean 4 proof (induction over batches, permutation/partition lemmas, field algebra, refinement of the loop model to a closed-form specification) + model-vs-implementation correspondence",
 }
 RULE = ("batcher stream: one case = one SimpleBatcher (n, batch size, val_ratio, mode, seed, shuffle) iterated for two epochs + validation pass; "
         "distinct non-trivial = distinct (n, b, n_val, mode, shuffle) with n >= 2; subdivide stream: distinct (n, num_batches|max_batch); "
         "numeric/determinism streams: distinct (scan, roi, loss type, batch size, val split, probes); aborted stream: one case = one history (valid run, interrupted call, run without reset, "
         "reset run, fresh object) + one model-tie evaluation per call, distinct (scan, loss, batch sizes, split, fault kind/iteration/batch/raise point, exception class, reset flag, frozen); "
-        "rngset: distinct (form, seed, draws consumed); cfgseq: distinct call sequences")
+        "rngset: distinct (form, seed, draws consumed); cfgseq: distinct call sequences; growth 6: fixed batcher blocks count like batcher cases; big: distinct (n, b, split); twins: distinct (n, b, ratio, mode, second batch size); "
+        "rerun: distinct (scan, loss, b, split, probes) — one case = five or six whole reset runs on two live objects + a fresh one")
 TRUSTED = ["exception injection: instance-level wrappers around dset.forward / backward / step_schedulers raise the exception; a real failure of a callee is assumed to leave the same Python-level state behind as the injected one at the same point",
            "the model's generator is (seed, number of draws); what a draw returns is an oracle of (generator, list) — the real generator's state also depends on the LENGTHS drawn before; the harness replays the real sequence with a twin generator and compares its state with the object's after every call",
            "NumPy Generator determinism: np.random.default_rng(seed) reproduces the permutations SimpleBatcher draws",
            "torch autograd / optimizers (gradient invariance and determinism of real runs are measured, not proved)",
            "Lean Float = IEEE binary64 (n_val = round(n*ratio) and k = round(1/ratio) are computed in the model exactly as in Python)"]
-ASSUMPTIONS = ["aborted stream: the frozen-parameter comparison with the full-batch loss is judged only when the split is the same in every call (val_ratio 0 or grid mode: in random mode every reconstruct call draws a new split by design); what an interrupted call leaves behind (history length, generator position) is compared with the model only — the property gives no verdict on it; batch sizes < 1, an empty training set (ZeroDivisionError) and val_len() for negative batch sizes are outside the property's quantifier and compared with the model only",
+ASSUMPTIONS = ["growth 6: the 'big' cases (n = 2**24+3, 70001) are judged by the predicate only (no Lean model: the index lists do not fit through the driver); batches are converted to Python ints when they are yielded (a consumer that keeps references to yielded arrays is not modelled); changing SimpleBatcher.batch_size on a live object is a public attribute assignment, the count clause is judged after it",
+               "aborted stream: the frozen-parameter comparison with the full-batch loss is judged only when the split is the same in every call (val_ratio 0 or grid mode: in random mode every reconstruct call draws a new split by design); what an interrupted call leaves behind (history length, generator position) is compared with the model only — the property gives no verdict on it; batch sizes < 1, an empty training set (ZeroDivisionError) and val_len() for negative batch sizes are outside the property's quantifier and compared with the model only",
                "a NumPy Generator handed to rng= is fresh (a generator that was already used makes the first run start later in the stream than the run after a reset — modelled in rngSet, not judged)",
                "rejected-call stream: values handed to the setters are ints, floats, strings, lists; string val_ratio values are non-numeric; a call that is accepted (e.g. batch_size=2.5 is rounded, val_ratio=1.0 is stored) carries no claim; a reconstruct() call that fails on its loss_type has already installed optimizers ('zz') or advanced the generator ('l3_amplitude', rejected inside the first batch) — only the reset clause is judged after it",
                "invariance of losses/gradients is judged for autograd=True (the default); with autograd=False the 'gradient' is an overlap-normalised update direction whose normalisation depends on the batch — its deviation is reported under measured.analytic_grad_rel_dev, no verdict",
@@ -284,6 +291,10 @@ def gen_batcher_cases(ctx):
         else:
             c["mode"] = rng.choice(["Grid", "RANDOM", "regular", ""])
         cases.append(c)
+    # growth 6: FIXED blocks (input classes independent of VERIF_SEED): grid split on both sides of 0.5 for n = 41..110, sizes around
+    # 100 / 127 / 255 / 1000 / 32768 / 65537 with batch sizes that divide exactly / leave a remainder of one / equal / exceed the set
+    from props import c09_g6
+    cases += c09_g6.fixed_batcher_cases()
     return cases
 
 
@@ -612,6 +623,8 @@ def numeric_case(ctx, drv, cfg, only_b=None):
         nondiv = [b for b in range(2, n + 3) if n % b != 0]
         rng = ctx.rng.fork(cfg["seed"] * 7919 + n)
         extra = rng.sample(nondiv, min(2, len(nondiv)))
+        rem1 = [b for b in nondiv if b < n and n % b == 1]          # growth 6: the last batch holds ONE pattern (smallest and largest such b), fixed
+        extra = extra + [b for b in dict.fromkeys(rem1[:1] + rem1[-1:]) if b not in extra]
         todo = [b for b in bs if b != n] + extra
         if only_b is not None:
             todo = [only_b]
@@ -624,7 +637,7 @@ def numeric_case(ctx, drv, cfg, only_b=None):
             case = {"stream": "numeric", "cfg": cfg, "b": b}
             ctx.count()
             ctx.mark(("numeric",) + key_cfg + (b,))
-            ctx.dist["numeric:b " + ("=1" if b == 1 else "divides" if n % b == 0 else "non-dividing")] += 1
+            ctx.dist["numeric:b " + ("=1" if b == 1 else "divides" if n % b == 0 else "remainder-one" if n % b == 1 else "non-dividing")] += 1
             # ---- correspondence 1: the schedule inside reconstruct = the model's schedule
             perm, orders = twin_schedule(cfg, N, train, b, 1)
             m = drv.ask({"op": "batcher", "n": N, "ratio": f2b(cfg["val_ratio"]), "mode": cfg["val_mode"], "perm": perm, "b": b, "orders": orders})
@@ -651,6 +664,15 @@ def numeric_case(ctx, drv, cfg, only_b=None):
             ctx.stat_max("epoch_loss_model_vs_impl_rel", dev)
             if dev > TOL32:
                 ctx.disagree("epoch-loss", case, ep_model, ep_impl, note="iter_losses[-1] vs model epochLoss")
+            # ---- property predicate (every batch size): the number of batches reconstruct REPORTS (it divides the summed batch losses by
+            # len(batcher)) is the number it was handed — parameters are frozen, so the recorded entry must be sum / yielded
+            if tr:
+                want = sum(e["loss"] for e in tr) / len(tr)
+                if abs(ep_impl - want) > 1e-9 * max(1.0, abs(want)):
+                    ctx.pred_fail("reconstruct-len-vs-yielded", f"the iter_losses entry of an epoch is not the sum of the losses of the {len(tr)} batches yielded in it divided by their number "
+                                  "(the reported number of batches differs from the number yielded)", case,
+                                  observed={"iter_loss": ep_impl, "sum_of_batch_losses": want * len(tr), "implied_number_of_batches": (want * len(tr) / ep_impl) if ep_impl else None, "b": b, "n_train": n},
+                                  required={"batches_yielded": len(tr), "mean_of_batch_losses": want})
             # ---- property predicate: mean of per-batch losses / gradients = full batch (divisors only)
             if n % b == 0:
                 ml = float(np.mean([e["loss"] for e in tr]))
@@ -1236,6 +1258,14 @@ def aborted_case(ctx, drv, cfg, b):
         if mv != r["impl"] or mo["draws_used"] != len(r["draws"]):
             ctx.disagree("reconstruct-state-machine-with-faults", dict(case, run=j), dict(mv, draws_used=mo["draws_used"]), dict(r["impl"], draws_used=len(r["draws"])),
                          note=f"call #{j} (reset={r['reset']}, route={r['route']}, iters={r['iters']}, fault={r['fault']}): yielded batches / iter_losses / val_iter_losses / raised / generator draws after the call")
+        # growth 6: the same call against the CLOSED-FORM specification (Model/BatcherSpec.lean `specCall`; Props/C09Ext proves reconstructF = specCall)
+        sp = mo.get("spec")
+        if sp is not None:
+            impl_sp = {"schedule": r["impl"]["schedule"], "draws_used": len(r["draws"]), "n_iter_losses": len(r["impl"]["iter_losses"]), "raised": r["impl"]["raised"]}
+            ctx.dist["aborted:spec-tie"] += 1
+            if sp != impl_sp:
+                ctx.disagree("reconstruct-call-vs-spec", dict(case, run=j), sp, impl_sp,
+                             note=f"call #{j} (reset={r['reset']}, route={r['route']}, iters={r['iters']}, fault={r['fault']}): batches handed out / generator draws / length of iter_losses / raised vs specCall")
     ctx.sample({"stream": "aborted", "fault": fault, "exception": ab["exc"], "abort_call": {"reset": ab["reset"], "b": ab["b"], "iters": ab["iters"]}, "frozen": frozen, "b": b,
                 "history_after_abort": log[1]["impl"]["iter_losses"], "C_losses": C["losses"]}, limit=6)
 
@@ -1515,7 +1545,7 @@ def guarded(ctx, fn, case, *args):
     except Exception as e:  # noqa
         cfg = next((a for a in args if isinstance(a, dict)), None)
         case = dict(case, cfg=cfg)
-        if fn is determinism_case or fn is history_case or fn is aborted_case or fn is empty_train_case:
+        if fn is determinism_case or fn is history_case or fn is aborted_case or fn is empty_train_case or fn.__name__ == "rerun_case":
             case["b"] = args[-1]
         if fn is cfgseq_case:
             case["calls"] = args[-1]
@@ -1567,6 +1597,13 @@ def run(ctx):
             guarded(ctx, rejected_case, {"stream": "rejected", "rej": list(rej)}, ctx, drv, cfg, b, rej, i % 3 != 2)
         run_rngset_stream(ctx, drv)
         run_signature_stream(ctx)
+        from props import c09_g6
+        c09_g6.run_big_stream(ctx)
+        c09_g6.run_twins_stream(ctx, drv)
+        rng = ctx.rng.fork(11)
+        for i in range(ctx.n(3, 12)):
+            cfg, b = c09_g6.gen_rerun_cfg(rng, i)
+            guarded(ctx, c09_g6.rerun_case, {"stream": "rerun"}, ctx, cfg, b)
         rng = ctx.rng.fork(10)
         for i in range(ctx.n(8, 40)):
             cfg = gen_numeric_cfg(rng, i)
@@ -1598,6 +1635,15 @@ def replay(ctx, rep):
     try:
         if stream == "user":
             run_user_stream(ctx, drv, [case])
+        elif stream == "twins":
+            from props import c09_g6
+            c09_g6.twins_case(ctx, drv, case.get("case", case))
+        elif stream == "big":
+            from props import c09_g6
+            c09_g6.big_batcher_case(ctx, {k: v for k, v in case.items() if k != "epoch"})
+        elif stream == "rerun":
+            from props import c09_g6
+            c09_g6.rerun_case(ctx, case["cfg"], case["b"])
         elif stream == "batcher" or "n" in case and "cfg" not in case and "nb" not in case:
             run_batcher_stream(ctx, drv, [case])
         elif stream == "subdivide" or "nb" in case:
